@@ -107,6 +107,82 @@ func runC04(args []string) int {
 	}
 	var coqCases []string
 	var caseIdx []interface{}
+	runCase := func(t Target, p *Prog, in []*big.Int) {
+		nin := p.NbPub + p.NbSec
+		vals, specOK, free, why := EvalSpec(p, t.Field, in)
+		outs := make([]*big.Int, len(p.Outs))
+		for i, ov := range p.Outs {
+			outs[i] = vals[ov]
+		}
+		type variant struct {
+			name string
+			p    *Prog
+			outs []*big.Int
+			ok   bool
+			opts []frontend.CompileOption
+		}
+		vs := []variant{{"base", p, outs, specOK, nil}}
+		if len(outs) > 0 {
+			bad := append([]*big.Int{}, outs...)
+			j := rng.Intn(len(bad))
+			bad[j] = new(big.Int).Add(bad[j], big.NewInt(1))
+			bad[j].Mod(bad[j], t.Field)
+			vs = append(vs, variant{"wrong-out", p, bad, false, nil})
+		}
+		mask := uint(1 + rng.Intn((1<<uint(nin))-1))
+		vs = append(vs, variant{fmt.Sprintf("const-mask-%b", mask), constVariant(p, in, mask), outs, specOK, nil})
+		vs = append(vs, variant{"swapped", swapVariant(p), outs, specOK, nil})
+		if t.R1CS {
+			th := []int{2, 3, 300}[rng.Intn(3)]
+			vs = append(vs, variant{fmt.Sprintf("compress-%d", th), p, outs, specOK, []frontend.CompileOption{frontend.WithCompressThreshold(th)}})
+		}
+		for _, v := range vs {
+			obs, msg := runProg(t, v.p, in, v.outs, v.opts...)
+			desc := c04Desc{t.String(), v.p.String(), bigStrs(in), bigStrs(v.outs), v.name, obs, v.ok, why}
+			rep.Eval(fmt.Sprintf("%s|%s|%s|%v|%v", t, v.name, v.p, in, v.outs), len(p.Ops) > 0)
+			rep.Count("variant:" + strings.SplitN(v.name, "-", 2)[0])
+			rep.Count("obs:" + obs)
+			rep.Sample(desc)
+			for _, k := range progKinds(v.p) {
+				rep.Count("op:" + k)
+			}
+			kinds := strings.Join(progKinds(v.p), "+")
+			switch {
+			case obs == "harness":
+				rep.Fail("harness:witness", msg, desc)
+			case obs == "panic:solve":
+				sig := "c04:solve-panic:" + v.name + ":" + t.String() + ":" + kinds
+				if strings.HasPrefix(v.name, "compress-2") && (strings.Contains(kinds, "IsZero") || strings.Contains(kinds, "Cmp")) && strings.Contains(msg, "more than one wire") { // Cmp is built on IsZero
+					sig = "c04:solve-panic:compress-2:iszero:more-than-one-wire"
+				}
+				rep.Fail(sig, "Solve panicked: "+msg, desc)
+			case obs == "panic:compile":
+				if v.ok || !documentedCompilePanic(msg) {
+					sig := "c04:compile-panic:" + t.String() + ":" + kinds
+					if free {
+						sig = "c04:compile-panic:divunchecked-0-0:" + t.String()
+					}
+					rep.Fail(sig, "compile-time panic ("+msg+") although "+map[bool]string{true: "every assertion holds", false: "the panic is not a documented one"}[v.ok], desc)
+				}
+			case obs == "ok" && !v.ok && !free:
+				rep.Fail("c04:accepts-violated:"+t.String()+":"+kinds, "Solve succeeded although "+map[bool]string{true: "the exposed output is wrong", false: why}[v.name == "wrong-out" && specOK], desc)
+			case obs == "fail" && v.ok:
+				sig := "c04:rejects-valid:" + t.String() + ":" + kinds
+				if free {
+					if strings.Contains(msg, "div by constant(0)") || strings.Contains(msg, "inverse by constant(0)") {
+						break // the divisor folded to the constant 0 at compile time: documented compile error
+					}
+					sig = "c04:rejects-valid:divunchecked-0-0:" + t.String()
+				}
+				rep.Fail(sig, "compile/solve failed ("+msg+") although every assertion holds and the exposed values are the documented ones", desc)
+			}
+			// Coq case: Spec.v must predict the observed outcome (base + wrong-out variants, F_47 and BN254)
+			if (v.name == "base" || v.name == "wrong-out" || strings.HasPrefix(v.name, "const")) && !free && (t.Name == "tiny" || t.Name == "bn254") && len(coqCases) < 1200 && !strings.HasPrefix(obs, "panic") {
+				coqCases = append(coqCases, fmt.Sprintf("(%s, %s, %s, %s, %s, %s)", zlit(t.Field), coqProg(v.p), zlist(in), intlist(v.p.Outs), zlist(v.outs), coqbool(obs == "ok")))
+				caseIdx = append(caseIdx, desc)
+			}
+		}
+	}
 	for pi := 0; pi < nprog; pi++ {
 		t := fields[pi%len(fields)]
 		cfg := GenCfg{MaxOps: 6}
@@ -126,81 +202,10 @@ func runC04(args []string) int {
 					in[i] = big.NewInt(int64(rng.Intn(3)))
 				}
 			}
-			vals, specOK, free, why := EvalSpec(p, t.Field, in)
-			outs := make([]*big.Int, len(p.Outs))
-			for i, ov := range p.Outs {
-				outs[i] = vals[ov]
-			}
-			type variant struct {
-				name string
-				p    *Prog
-				outs []*big.Int
-				ok   bool
-				opts []frontend.CompileOption
-			}
-			vs := []variant{{"base", p, outs, specOK, nil}}
-			if len(outs) > 0 {
-				bad := append([]*big.Int{}, outs...)
-				j := rng.Intn(len(bad))
-				bad[j] = new(big.Int).Add(bad[j], big.NewInt(1))
-				bad[j].Mod(bad[j], t.Field)
-				vs = append(vs, variant{"wrong-out", p, bad, false, nil})
-			}
-			mask := uint(1 + rng.Intn((1<<uint(nin))-1))
-			vs = append(vs, variant{fmt.Sprintf("const-mask-%b", mask), constVariant(p, in, mask), outs, specOK, nil})
-			vs = append(vs, variant{"swapped", swapVariant(p), outs, specOK, nil})
-			if t.R1CS {
-				th := []int{2, 3, 300}[rng.Intn(3)]
-				vs = append(vs, variant{fmt.Sprintf("compress-%d", th), p, outs, specOK, []frontend.CompileOption{frontend.WithCompressThreshold(th)}})
-			}
-			for _, v := range vs {
-				obs, msg := runProg(t, v.p, in, v.outs, v.opts...)
-				desc := c04Desc{t.String(), v.p.String(), bigStrs(in), bigStrs(v.outs), v.name, obs, v.ok, why}
-				rep.Eval(fmt.Sprintf("%s|%s|%s|%v|%v", t, v.name, v.p, in, v.outs), len(p.Ops) > 0)
-				rep.Count("variant:" + strings.SplitN(v.name, "-", 2)[0])
-				rep.Count("obs:" + obs)
-				rep.Sample(desc)
-				for _, k := range progKinds(v.p) {
-					rep.Count("op:" + k)
-				}
-				kinds := strings.Join(progKinds(v.p), "+")
-				switch {
-				case obs == "harness":
-					rep.Fail("harness:witness", msg, desc)
-				case obs == "panic:solve":
-					sig := "c04:solve-panic:" + v.name + ":" + t.String() + ":" + kinds
-					if strings.HasPrefix(v.name, "compress-2") && (strings.Contains(kinds, "IsZero") || strings.Contains(kinds, "Cmp")) && strings.Contains(msg, "more than one wire") { // Cmp is built on IsZero
-						sig = "c04:solve-panic:compress-2:iszero:more-than-one-wire"
-					}
-					rep.Fail(sig, "Solve panicked: "+msg, desc)
-				case obs == "panic:compile":
-					if v.ok || !documentedCompilePanic(msg) {
-						sig := "c04:compile-panic:" + t.String() + ":" + kinds
-						if free {
-							sig = "c04:compile-panic:divunchecked-0-0:" + t.String()
-						}
-						rep.Fail(sig, "compile-time panic ("+msg+") although "+map[bool]string{true: "every assertion holds", false: "the panic is not a documented one"}[v.ok], desc)
-					}
-				case obs == "ok" && !v.ok && !free:
-					rep.Fail("c04:accepts-violated:"+t.String()+":"+kinds, "Solve succeeded although "+map[bool]string{true: "the exposed output is wrong", false: why}[v.name == "wrong-out" && specOK], desc)
-				case obs == "fail" && v.ok:
-					sig := "c04:rejects-valid:" + t.String() + ":" + kinds
-					if free {
-						if strings.Contains(msg, "div by constant(0)") || strings.Contains(msg, "inverse by constant(0)") {
-							break // the divisor folded to the constant 0 at compile time: documented compile error
-						}
-						sig = "c04:rejects-valid:divunchecked-0-0:" + t.String()
-					}
-					rep.Fail(sig, "compile/solve failed ("+msg+") although every assertion holds and the exposed values are the documented ones", desc)
-				}
-				// Coq case: Spec.v must predict the observed outcome (base + wrong-out variants, F_47 and BN254)
-				if (v.name == "base" || v.name == "wrong-out" || strings.HasPrefix(v.name, "const")) && !free && (t.Name == "tiny" || t.Name == "bn254") && len(coqCases) < 1200 && !strings.HasPrefix(obs, "panic") {
-					coqCases = append(coqCases, fmt.Sprintf("(%s, %s, %s, %s, %s, %s)", zlit(t.Field), coqProg(v.p), zlist(in), intlist(v.p.Outs), zlist(v.outs), coqbool(obs == "ok")))
-					caseIdx = append(caseIdx, desc)
-				}
-			}
+			runCase(t, p, in)
 		}
 	}
+	zeroOperandProgs(runCase)
 	var sb strings.Builder
 	sb.WriteString("From Coq Require Import ZArith List Bool.\nFrom GnarkV Require Import Frontend.Spec Frontend.C04Cases Frontend.SemCases.\nImport ListNotations.\n")
 	sb.WriteString(fmt.Sprintf("Definition cases : list c04case := %s.\n", coqlistNL(coqCases)))
@@ -214,4 +219,45 @@ func runC04(args []string) int {
 	runBuilderTie(o, rep)
 	rep.Write(o.Out)
 	return 0
+}
+
+// zeroOperandProgs: every call of arity >= 2 with the constant 0 (literal, or folded from x - x) in each operand
+// position and distinct variables elsewhere, every result exposed, on both builders over F_47 and BN254, for all
+// input tuples over {0, 1, 2, 5}: the constant-folding branches of the builders for a zero operand (scaling by 0,
+// a zero numerator, a zero accumulator) must not change the documented meaning
+func zeroOperandProgs(runCase func(t Target, p *Prog, in []*big.Int)) {
+	arity := map[string]int{"Add": 3, "Sub": 3, "Mul": 3, "MulAcc": 3, "Div": 2, "DivUnchecked": 2, "Select": 3, "Lookup2": 6, "Xor": 2, "Or": 2, "And": 2}
+	kinds := []string{"Add", "Sub", "Mul", "MulAcc", "Div", "DivUnchecked", "Select", "Lookup2", "Xor", "Or", "And"}
+	targets := []Target{{"tiny", tinyMod, true}, {"tiny", tinyMod, false}, {"bn254", ecc.BN254.ScalarField(), true}, {"bn254", ecc.BN254.ScalarField(), false}}
+	vals := []int64{0, 1, 2, 5}
+	for ki, k := range kinds {
+		n := arity[k]
+		for pos := 0; pos < n; pos++ {
+			for folded := 0; folded < 2; folded++ {
+				p := &Prog{NbPub: 0, NbSec: 3}
+				next := 3
+				zero := Arg{Const: true, C: big.NewInt(0)}
+				if folded == 1 {
+					p.Ops = append(p.Ops, Op{Kind: "Sub", Args: []Arg{{V: 0}, {V: 0}}})
+					zero = Arg{V: next}
+					next++
+				}
+				args := make([]Arg, n)
+				for i := range args {
+					args[i] = Arg{V: i % 3}
+				}
+				args[pos] = zero
+				p.Ops = append(p.Ops, Op{Kind: k, Args: args})
+				p.Outs = []int{next}
+				// the result is used again, so that a wrong linear expression shows up downstream as well
+				p.Ops = append(p.Ops, Op{Kind: "Add", Args: []Arg{{V: next}, {V: 1}}})
+				p.Outs = append(p.Outs, next+1)
+				t := targets[(ki+pos+folded)%len(targets)]
+				for a := 0; a < 64; a++ {
+					in := []*big.Int{big.NewInt(vals[a%4]), big.NewInt(vals[(a/4)%4]), big.NewInt(vals[(a/16)%4])}
+					runCase(t, p, in)
+				}
+			}
+		}
+	}
 }
